@@ -13,6 +13,7 @@ File(p, k, c, n) == [place |-> p, kind |-> k, content |-> c, n |-> n]
 AllFiles == {File(p, k, c, 1) : p \in Places, k \in Kinds, c \in Contents}
 
 Visited(place) == place \in {"root", "sub", "sub/deep"}
+Rewritable(f) == f.kind = "py" /\ f.content \in {"v1import", "v1import_utf8"}
 MustRewrite(f) == Visited(f.place) /\ f.kind = "py" /\ f.content \in {"v1import", "v1import_utf8"}
 
 
